@@ -1,6 +1,6 @@
 (* C06: the normalisation trace is a path of legal interchanges; the normal form is
    normal and a fixed point; NotImplementedError only on a repeat. *)
-From Coq Require Import List ZArith Bool Lia Permutation.
+From Coq Require Import List ZArith Bool Lia Permutation Relations.
 Import ListNotations.
 Require Import DV.Common.Base DV.Common.ListLemmas DV.Core.Diagram DV.Core.WF DV.Core.DiagramLemmas
   DV.Core.Rewriting DV.Core.RewritingLemmas DV.Core.Normal.
@@ -201,3 +201,44 @@ Theorem nf_not_implemented_repeat fuel d left :
 Proof.
   intros H. destruct (nf_loop_not_implemented _ _ _ _ H) as (tr & P & R). exists tr. split; auto.
 Qed.
+
+(* ---- the normal form stays inside the input's interchanger-equivalence class ---- *)
+Lemma legal_step_equiv left d d' : legal_step left d d' -> interchanger_equiv d d'.
+Proof. intros (i & _ & E). apply Relation_Operators.rst_step. exists i, left. exact E. Qed.
+
+Lemma legal_path_equiv tr : forall d left, legal_path d tr left -> interchanger_equiv d (last tr d).
+Proof.
+  induction tr as [|x tr IH]; intros d left H; cbn [legal_path] in H.
+  - cbn. apply Relation_Operators.rst_refl.
+  - destruct H as [Hs Hp]. eapply Relation_Operators.rst_trans; [eapply legal_step_equiv; exact Hs|].
+    destruct tr as [|y tr']; [cbn; apply Relation_Operators.rst_refl|].
+    change (last (x :: y :: tr') d) with (last (y :: tr') d).
+    rewrite (last_cons_indep y tr' d x). apply (IH x left Hp).
+Qed.
+
+Lemma nf_loop_equiv fuel : forall d left seen d', nf_loop fuel d left seen = Ok d' -> interchanger_equiv d d'.
+Proof.
+  induction fuel as [|fuel IH]; cbn [nf_loop]; intros d left seen d' H; [discriminate|].
+  destruct (normalize_pass d 0 (length (dboxes d) - 1) left [] false) as [[[d1 ys] moved]|] eqn:E; [|discriminate].
+  cbn [bind] in H.
+  destruct (normalize_pass_legal _ d d _ left [] false _ _ _ Logic.I eq_refl E) as (P & L & _).
+  destruct (first_repeat seen (rev ys)); [discriminate|].
+  assert (Q : interchanger_equiv d d1) by (rewrite <- L; eapply legal_path_equiv; exact P).
+  destruct moved.
+  - eapply Relation_Operators.rst_trans; [exact Q|]. eapply IH; exact H.
+  - inversion H; subst. exact Q.
+Qed.
+
+Theorem normal_form_equiv fuel d left d' : normal_form fuel d left = Ok d' -> interchanger_equiv d d'.
+Proof. apply nf_loop_equiv. Qed.
+
+(* every diagram yielded by normalize is in the class too *)
+Lemma legal_path_all_equiv tr : forall d left, legal_path d tr left -> Forall (interchanger_equiv d) tr.
+Proof.
+  induction tr as [|x tr IH]; intros d left H; [constructor|]. cbn [legal_path] in H. destruct H as [Hs Hp].
+  pose proof (legal_step_equiv _ _ _ Hs) as Q. constructor; [exact Q|].
+  eapply Forall_impl; [|exact (IH x left Hp)]. intros y Hy. eapply Relation_Operators.rst_trans; eauto.
+Qed.
+
+Theorem normalize_equiv fuel d left tr : wf d -> normalize fuel d left = Ok tr -> Forall (interchanger_equiv d) tr.
+Proof. intros W H. eapply legal_path_all_equiv. eapply normalize_legal; eauto. Qed.
